@@ -76,7 +76,10 @@ func main() {
 			inconclusive = append(inconclusive, fmt.Sprintf("shard %d evidence unreadable: %v", i, err))
 			continue
 		}
-		if !s.Done {
+		if rc == "66" {
+			// the race detector reported a data race (GORACE exitcode=66): shared mutable state between application instances
+			viol = append(viol, ev.Violation{Label: *id + "/data-race", What: "the Go race detector reported a data race while application instances ran concurrently", Replay: base + ".out"})
+		} else if !s.Done {
 			inconclusive = append(inconclusive, fmt.Sprintf("shard %d did not finish (rc=%s, see %s.out)", i, rc, base))
 		} else if rc != "0" && rc != "1" {
 			inconclusive = append(inconclusive, fmt.Sprintf("shard %d exit status %s (see %s.out)", i, rc, base))
